@@ -210,6 +210,7 @@ def run(ctx):
         except (AssertionError, KeyError, ValueError, TypeError, IndexError, ZeroDivisionError, AttributeError) as e:
             ctx.ob(key + '/paths', False, 'path structure', w, 'analysable', str(e))
     ctx.floor('roots analysed', done, len(roots))
+    ctx.floor('API uses generated (counted at implementation time)', len(roots), 399)
     ctx.floor('integer Lerp impls covered (10 types x 2 factor types x 4 forms x value/ref)', sum(1 for r in roots if meta[r.name]['kind'] == 'int'), 160)
 
 
